@@ -3,9 +3,10 @@
    region_decodes), loading over any list of blocks (load_signal_blocks) and the rendering of every
    stored entry (entry_render, observe_entries), and the end-to-end theorem storage_transparent_partial with
    its corollary storage_independent_of_segmentation.
-   What the end-to-end theorem does NOT cover (hence `_partial`): reals, strings, the GHW
-   raw-value path (add_n_bit_change) and Encoder::append (blocks produced by several parser threads); for
-   those the tie is the correspondence check (MANIFEST level_note). *)
+   The end-to-end theorem covers bit-vector signals of every width >= 1 written through the VCD text path
+   (vcd_value_change) and through the raw path (raw_value_change with correctly packed data, GHW).
+   It does NOT cover (hence `_partial`): reals and strings; for those the tie is the correspondence check
+   (MANIFEST level_note). *)
 From WV Require Import Model.Base Model.Bits Model.Leb128 Model.WaveMem Proofs.BitsProofs Proofs.LebProofs Proofs.WaveMemProofs Proofs.StoreProofs Proofs.EncoderProofs.
 From WV Require Import Spec.TimeSpec Spec.StoreSpec Proofs.TimeTableProofs.
 Open Scope N_scope.
@@ -76,7 +77,7 @@ Check observe_entries :
                                      (concat (map snd (map (wide_of mx bits) abs)))))
   = outcome_map render_of abs.
 
-(* END-TO-END (vectors of any width written through the VCD value path): for every operation history over any
+(* END-TO-END (bit vectors of any width >= 1, VCD text path and raw path): for every operation history over any
    number of signals, every block capacity 1..65536 (every segmentation; the code's 65535 is one instance),
    every compressor satisfying the round-trip law: the loaded signal reports exactly the recorded changes
    (Spec/StoreSpec.v `recorded`): index into the accepted time table, least kind holding the value, its
@@ -90,7 +91,7 @@ Check storage_transparent_partial :
   forall cap, 1 <= cap -> cap <= 65536 -> forall id bits, (1 <= bits)%nat ->
   forall tpes ops e blocks ttb,
   nth_error tpes id = Some (EncBits bits) ->
-  Forall (op_ok id) ops ->
+  Forall (op_ok id bits) ops ->
   N.of_nat (count_vcd id ops) * (10 + N.of_nat bits) < 4294967264 ->
   run_ops parse_f64 lz_compress cap (enc_new tpes) ops = Ok e ->
   enc_finish lz_compress e = Ok (blocks, ttb) ->
@@ -106,7 +107,7 @@ Check storage_independent_of_segmentation :
   (forall d n, (length d <= n)%nat -> lzd1 (lzc1 d) n = Some d) ->
   (forall d n, (length d <= n)%nat -> lzd2 (lzc2 d) n = Some d) ->
   1 <= cap1 <= 65536 -> 1 <= cap2 <= 65536 -> (1 <= bits)%nat ->
-  nth_error tpes id = Some (EncBits bits) -> Forall (op_ok id) ops ->
+  nth_error tpes id = Some (EncBits bits) -> Forall (op_ok id bits) ops ->
   N.of_nat (count_vcd id ops) * (10 + N.of_nat bits) < 4294967264 ->
   run_ops parse1 lzc1 cap1 (enc_new tpes) ops = Ok e1 -> enc_finish lzc1 e1 = Ok (b1, t1) ->
   run_ops parse2 lzc2 cap2 (enc_new tpes) ops = Ok e2 -> enc_finish lzc2 e2 = Ok (b2, t2) ->
@@ -124,7 +125,7 @@ Check appended_transparent :
   forall tpes (opss : list (list enc_op)) (encs : list encoder) first others e blocks ttb,
   nth_error tpes id = Some (EncBits bits) ->
   Forall2 (fun ops en => run_ops parse_f64 lz_compress cap (enc_new tpes) ops = Ok en) opss encs ->
-  Forall (fun ops => Forall (op_ok id) ops /\ N.of_nat (count_vcd id ops) * (10 + N.of_nat bits) < 4294967264) opss ->
+  Forall (fun ops => Forall (op_ok id bits) ops /\ N.of_nat (count_vcd id ops) * (10 + N.of_nat bits) < 4294967264) opss ->
   encs = first :: others ->
   append_all lz_compress first others = Ok e ->
   enc_finish lz_compress e = Ok (blocks, ttb) -> N.of_nat (length ttb) < 4294967296 ->
